@@ -94,6 +94,9 @@ REFACTORS = [
   dict(id="ref:guard-negated-form", subs=[sub("collision_core.py", "  if cid < naconmax_in:\n    contact_dist_out[cid] = dist_in", "  if not (cid >= naconmax_in):\n    contact_dist_out[cid] = dist_in")], silent=["C16", "C17", "C04"]),
   dict(id="ref:zero-via-fill", subs=[sub("forward.py", "  # TODO(team): optimize performance\n  d.qfrc_actuator.zero_()\n", "  d.qfrc_actuator.fill_(0.0)\n")], silent=["C12", "C37"]),
   dict(id="ref:satisfied-negated", subs=[sub("solver.py", "  if jaref >= 0.0:", "  if not (jaref < 0.0):")], silent=["C24"]),
+  # the corrected twin of seeded change C30_3 (ring wrap by stepping back one slot, addresses hoisted out of the loops)
+  dict(id="ref:history-hoisted-wrap", patch="selftest_patches/refactor_history_hoisted_wrap.diff", silent=["C30"]),
+  dict(id="ref:sig-guard-forms", subs=[sub("support.py", "  if sig >= (1 << State.NSTATE):", "  if not (sig < 2 ** State.NSTATE):", nth=0)], silent=["C15"]),
 ]
 
 CATALOGUE = (
